@@ -67,6 +67,11 @@ pub open spec fn is_redirect(s: StatusCode) -> bool {
 // ASSUMED (core): slice::contains on a type with structural equality
 pub assume_specification<T: PartialEq> [<[T]>::contains] (s: &[T], x: &T) -> (r: bool)
     ensures r == s@.contains(*x);
+// ASSUMED (core): slice::split_last
+pub assume_specification<T> [<[T]>::split_last] (s: &[T]) -> (r: Option<(&T, &[T])>)
+    ensures
+        s@.len() == 0 ==> r is None,
+        s@.len() > 0 ==> (r matches Some(p) && *p.0 == s@[s@.len() - 1] && p.1@ == s@.subrange(0, s@.len() - 1));
 pub enum HeaderName { Location, Other(u8) }
 impl HeaderName {
     /// the header's name as http-types prints it
